@@ -7,7 +7,7 @@ INVARIANT Emit
 CONSTANTS
   MaxN = 4
   PoolSel = "tiny"
-  Codes = {65, 307, 545}
+  Codes = {65, 307}
   MaxRules = 0
   RuleTypes = {1}
   LigLens = {2}
